@@ -32,7 +32,7 @@ RULE = ("1-3 blocks of 1-4 chain-bonded atoms with nrexcl drawn from 0..4 (30 % 
         "next-residue bond), links `a >b` / `a +b` making one bond per adjacent residue pair (15 % of the pairs left "
         "without link), explicit exclusions in blocks (lines of 2-4 atoms, first atom vs each other) and links; residue graphs: paths, trees, one ring, 1-7 residues "
         "(10 thorough); non-trivial = at least two different exclusion distances among the residues and an "
-        "inter-residue bond; 30 % of the cases with a bond made by a by_atom_id link; distinct = abstract case")
+        "inter-residue bond; 30 % of the cases with a bond or a constraint made by a by_atom_id link; distinct = abstract case")
 
 
 # ------------------------------------------------------------------------------------------ generator
@@ -128,8 +128,13 @@ def gen_case(rng, max_res):
         own = c10.ownership(case)
         ra, rb = rng.sample(sorted(own), 2)
         a, b = rng.choice(own[ra]) + 1, rng.choice(own[rb]) + 1
-        links.append(dict(molmeta={"by_atom_id": True}, atoms=[], edges=[], nonedges=[], patterns=[],
-                          ixns=[["bonds", [str(a), str(b)], ["1", "0.41", "700"], {}]]))
+        # the connection is a bond or — as in Martini-like models — a constraint: both are bonds of the written
+        # molecule and both must carry the exclusions across the junction
+        if rng.random() < 0.5:
+            ixn = ["bonds", [str(a), str(b)], ["1", "0.41", "700"], {}]
+        else:
+            ixn = ["constraints", [str(a), str(b)], ["1", "0.41"], {}]
+        links.append(dict(molmeta={"by_atom_id": True}, atoms=[], edges=[], nonedges=[], patterns=[], ixns=[ixn]))
     return case
 
 
@@ -467,6 +472,69 @@ def run_exhaustive(ctx):
     ctx.case("exhaustive-small-shapes", stream="exhaustive")
 
 
+# ------------------------------------------------------------------------------------------ several molecules, one force field
+
+def _molecule_exclusions(force_field, graph_case):
+    """MapToMolecule + ApplyLinks on a fresh MetaMolecule of `graph_case["graph"]` with the GIVEN force-field object"""
+    import networkx as nx
+    from polyply.src.meta_molecule import MetaMolecule
+    from polyply.src.map_to_molecule import MapToMolecule
+    from polyply.src.apply_links import ApplyLinks
+    graph = nx.Graph()
+    for key, resid, resname in graph_case["graph"]["nodes"]:
+        graph.add_node(key, resid=resid, resname=resname)
+    for u, v, _lt in graph_case["graph"]["edges"]:
+        graph.add_edge(u, v)
+    meta = MetaMolecule(graph, force_field=force_field, mol_name="verif")
+    MapToMolecule(force_field).run_molecule(meta)
+    ApplyLinks().run_molecule(meta)
+    mol = meta.molecule
+    return dict(nrexcl=int(mol.nrexcl),
+                exclusions=sorted(sorted(int(a) for a in ixn.atoms) for ixn in mol.interactions.get("exclusions", [])),
+                edges=sorted(sorted((int(u), int(v))) for u, v in mol.edges))
+
+
+def run_history(ctx, count):
+    """Several molecules made one after the other from ONE loaded force field (the library API: `MapToMolecule(ff)` /
+    `ApplyLinks()` per chain of a system; `tag_exclusions` lowers `nrexcl` of the shared blocks and leaves the
+    `exclude` tags on them): the second molecule must get the exclusion distance and the exclusions it gets from a
+    freshly read force field.  Domain: both molecules use the same set of blocks (see notes/C14_findings.md for what
+    the unchanged code does when the second molecule brings a block the first one did not use)."""
+    rng = ctx.rng
+    done = tries = 0
+    while done < count and tries < 20 * count:
+        tries += 1
+        case = gen_case(rng, ctx.budget(6, 9))
+        case["links"] = [l for l in case["links"] if not (l.get("molmeta") or {}).get("by_atom_id")]   # they address ONE molecule
+        names = sorted({n for _k, _r, n in case["graph"]["nodes"]})
+        if len({b["nrexcl"] for b in case["blocks"] if b["name"] in names}) < 2:
+            continue
+        second = dict(case, graph=G.gen_graph(rng, rng.randint(2, ctx.budget(6, 9)), names, labelled=0.0, permute=0.3))
+        if sorted({n for _k, _r, n in second["graph"]["nodes"]}) != names:
+            continue
+        done += 1
+        replay = dict(stream="history", case=case, second=second["graph"])
+        try:
+            with tempfile.TemporaryDirectory() as tmp:
+                shared, _meta = G.build(case, tmp)
+            first = _molecule_exclusions(shared, case)
+            again = _molecule_exclusions(shared, second)
+            with tempfile.TemporaryDirectory() as tmp:
+                fresh_ff, _meta = G.build(second, tmp)
+            fresh = _molecule_exclusions(fresh_ff, second)
+        except Exception as err:  # pylint: disable=broad-except
+            ctx.oracle_fail("pipeline-raises", "two molecules from one force field: %s: %s" % (type(err).__name__, str(err)[:200]), replay)
+            continue
+        if again != fresh:
+            ctx.oracle_fail("history-changes-exclusions", "second molecule made from the same ForceField object: nrexcl %s, exclusions %s; "
+                            "from a freshly read force field: nrexcl %s, exclusions %s (first molecule: %s; second graph %s)"
+                            % (again["nrexcl"], [p for p in again["exclusions"] if p not in fresh["exclusions"]][:6] or "same",
+                               fresh["nrexcl"], [p for p in fresh["exclusions"] if p not in again["exclusions"]][:6] or "same",
+                               case["graph"], second["graph"]), replay)
+        ctx.case(("history", json.dumps(replay, sort_keys=True)), stream="history", history_generated=bool(fresh["exclusions"]))
+        ctx.traces += 1
+
+
 def run(ctx):
     ctx.extra["rule"] = RULE
     ctx.extra["trusted"] = ["networkx single_source_shortest_path (modelled by breadth-first levels)",
@@ -480,6 +548,7 @@ def run(ctx):
     ctx.extra["explanation"] = ("oracle = Excl.specPairs ∪ explicit vs Excl.effectivePairs, both evaluated by the Lean driver on the "
                                 "written .itp (nrexcl, [bonds]/[constraints], [exclusions])")
     run_exhaustive(ctx)
+    run_history(ctx, ctx.budget(60, 800))
     rng = ctx.rng
     cases = corpus_cases()
     for _ in range(ctx.budget(500, 5000)):
@@ -491,6 +560,16 @@ def run(ctx):
 def replay(ctx, data):
     inp = data.get("input") or {}
     items = [inp] if inp else [i["input"] for i in data.get("no_longer_checks", []) if i.get("input")]
+    for item in [i for i in items if i.get("stream") == "history"]:
+        with tempfile.TemporaryDirectory() as tmp:
+            shared, _m = G.build(item["case"], tmp)
+        second = dict(item["case"], graph=item["second"])
+        _molecule_exclusions(shared, item["case"])
+        again = _molecule_exclusions(shared, second)
+        with tempfile.TemporaryDirectory() as tmp:
+            fresh_ff, _m = G.build(second, tmp)
+        if again != _molecule_exclusions(fresh_ff, second):
+            ctx.oracle_fail("history-changes-exclusions", "replayed: second molecule from the shared force field differs from a fresh one", item)
     if any(item.get("stream") in ("expand-exhaustive", "neighborhood") for item in items):
         run_exhaustive(ctx)
     run_cases(ctx, [item["case"] for item in items if "case" in item])
